@@ -1,6 +1,7 @@
 package main
 
 import (
+	"strings"
 	"encoding/json"
 	"fmt"
 	"sort"
@@ -207,6 +208,32 @@ func runCountCase(o *Oracle, d json.RawMessage, oc *Outcome) {
 		}
 		if len(blocking) > 0 {
 			cur = append(cur, clauseLin(blocking))
+		}
+		// the concrete round (decisionLits on the real trail, the model array) against its Lean
+		// mirror GS.EnumRound (theorems decisionLits_spec, round_contract, enum_exact_concrete)
+		if rounds <= 12 {
+			tr, lv, rs := s1.VerifTrailState()
+			var te, re []string
+			for i := range tr {
+				te = append(te, fmt.Sprintf("%d %d", tr[i], lv[i]))
+				if rs[i] == nil {
+					re = append(re, "0")
+				} else {
+					re = append(re, encInts(rs[i]))
+				}
+			}
+			q := fmt.Sprintf("%d | %s | %s", n, strings.Join(te, " ; "), strings.Join(re, " ; "))
+			head := strings.TrimSpace(strings.SplitN(o.Ask("enumround2 "+q), "|", 2)[0])
+			wantHead := "finished"
+			if len(blocking) > 0 {
+				wantHead = "block " + encInts(blocking)
+			}
+			oc.Corr++
+			if head != wantHead {
+				oc.Fail("corr", "enum-round-mirror", "solver.CountModels", "round %d: decisionLits gave %q, the Lean mirror GS.EnumRound.roundStep %q on trail %s", rounds, wantHead, head, q)
+			} else if m := o.Ask("enumround2m " + q); m != encInts(model) {
+				oc.Fail("corr", "enum-round-mirror", "solver.CountModels", "round %d: model array %v, the mirror's modelOf gives %q on trail %s", rounds, model, m, q)
+			}
 		}
 	})
 	got := s1.CountModels()
